@@ -111,17 +111,33 @@ def rule_payload_fork(ctx):
     ctx.check('payload_fork', 'single-construction', found == 1, p, '%d OpReturn construction(s)' % found)
     cs_ = prog.one('custom::compute_stack')
     ctx.touch(cs_)
-    # whichever arm handles an OpReturn pattern (a dedicated one or the catch-all) hands the pattern on unchanged
-    arms = []
-    for d in cs_.ret_defs():
-        v = canon(cs_.rvalue_expr(d[3])) if d[0] == 'assign' else canon(cs_.call_expr(d[2]))
-        for g in util.path_guard_sets(cs_, d[1]):
+    # whichever construction site an OpReturn pattern reaches (a dedicated arm, the catch-all, or one construction
+    # fed by a separately chosen address) hands the pattern on unchanged and gives it no address
+    def allows_opreturn(bb):
+        for g in util.path_guard_sets(cs_, bb):
             pat = [x for x in g if x.startswith('a1.pattern is ')]
-            variants = pat[0][len('a1.pattern is '):].split('|') if pat else []
-            if 'OpReturn' in variants:
-                arms.append(v)
-    okf = bool(arms) and all(re.search(r'pattern: (ScriptPattern::OpReturn\{0: \(a1\.pattern as OpReturn\)\.0\}|a1\.pattern)\}', v) and 'address: Option::None{}' in v for v in arms)
-    ctx.check('payload_fork', 'payload-forwarded-unchanged', okf, cs_, 'compute_stack forwards the payload string: %s' % [v[-90:] for v in arms])
+            if not pat or 'OpReturn' in pat[0][len('a1.pattern is '):].split('|'):
+                return True
+        return False
+    sites = []   # (bb, address operand, pattern canon)
+    for i2 in cs_.live:
+        for st in cs_.blocks[i2]['stmts']:
+            if st['k'] == 'assign' and st['rv']['k'] == 'aggr' and st['rv'].get('adt', '').endswith('EvaluatedScript') and 'address' in st['rv'].get('fields', []):
+                f = st['rv']['fields']
+                sites.append((i2, st['rv']['ops'][f.index('address')], canon(cs_.op_expr(st['rv']['ops'][f.index('pattern')]))))
+    for c in cs_.calls:
+        if mir.method_name(c.name) == 'new' and 'EvaluatedScript' in c.name and len(c.args) == 2:
+            sites.append((c.bb, c.args[0], canon(cs_.op_expr(c.args[1]))))
+    verdicts = []
+    for bb, aop, pat in sites:
+        if not allows_opreturn(bb):
+            continue
+        okp = pat in ('ScriptPattern::OpReturn{0: (a1.pattern as OpReturn).0}', 'a1.pattern')
+        alts = util.value_alternatives(cs_, aop) or [(cs_.op_expr(aop), bb)]
+        oka = all(canon(e) == 'Option::None{}' for e, abb in alts if abb == bb or allows_opreturn(abb))
+        verdicts.append((okp and oka, pat))
+    okf = bool(verdicts) and all(v[0] for v in verdicts)
+    ctx.check('payload_fork', 'payload-forwarded-unchanged', okf, cs_, 'compute_stack forwards the payload string: %s' % verdicts)
 
 
 def rule_print(ctx):
